@@ -70,6 +70,20 @@ def main():
         args = [a for a in args if a != tier]
     seed = int(os.environ.get("VERIF_SEED", "0") or 0)
     todo = names() if "--all" in sys.argv else args
+    # temporary files of the legs (tempfile.*) go to one scratch directory that is removed at the end, not to /tmp
+    import shutil
+    import tempfile
+
+    scratch = tempfile.mkdtemp(prefix="verif-extras.", dir="/var/tmp")
+    os.environ["TMPDIR"] = scratch
+    tempfile.tempdir = scratch
+    try:
+        return _main(todo, tier, seed)
+    finally:
+        shutil.rmtree(scratch, ignore_errors=True)
+
+
+def _main(todo, tier, seed):
     rc = 0
     res = []
     for n in todo:
